@@ -933,9 +933,12 @@ class CompilerPassGenerateCode(CompilerPass):
             if args[2]._ndata.is_constant:
                 is_increasing = args[2]._ndata.constant_value >= 0
 
-        for_label, end_label = self.get_label("for", "for.end")
+        for_label, continue_label, end_label = self.get_label(
+            "for", "for.continue", "for.end"
+        )
         data = node._ndata
-        data.start_label = for_label
+        # 'continue' jumps to the increment, not to the loop test
+        data.start_label = continue_label
         data.end_label = end_label
 
         iter_sym = self.get_intermediate_symbol(node)
@@ -951,6 +954,7 @@ class CompilerPassGenerateCode(CompilerPass):
         for stmt in node.body:
             self.compile_node(stmt)
 
+        data.add_end(IC10(f"{continue_label}:"))
         data.add_end(IC10("add", [iter_sym, step], iter_sym, indent=1))
         data.add_end(IC10("j", [for_label], indent=1))
         data.add_end(IC10(f"{end_label}:"))
